@@ -13,12 +13,15 @@ THEOREMS_BY_PROP = {
     "C02": ["DepLogic.C02.and_sound", "DepLogic.C02.or_sound", "DepLogic.C02.isEmpty_sound", "DepLogic.C02.isAny_sound",
             "DepLogic.C02.rewriting_sound", "DepLogic.M.sound_all", "DepLogic.M.singleSound", "DepLogic.M.mergeSingle_ok",
             "DepLogic.M.str_coherent"],
-    "C03": [], "C07": [],
+    "C03": ["DepLogic.C03.build_sound", "DepLogic.M.sound_all", "DepLogic.M.singleSound"],
+    "C07": ["DepLogic.C07.str_empty_any", "DepLogic.C03.build_sound"],
     "C12": ["DepLogic.C12.only_mentions", "DepLogic.C12.only_implied", "DepLogic.C12.only_same",
             "DepLogic.C12.exclude_mentions", "DepLogic.C12.exclude_implied", "DepLogic.C12.exclude_same_partial",
             "DepLogic.C12.exclude_same_needs_noVanish", "DepLogic.C12.only_ok", "DepLogic.C12.exclude_ok",
             "DepLogic.C12.singleSound_names"],
-    "C15": []}
+    "C15": ["DepLogic.C15.flatten_nodup", "DepLogic.C15.mkMulti_nodup", "DepLogic.C15.mkUnion_nodup",
+            "DepLogic.C15.multiOf_exit", "DepLogic.C15.unionOfList_exit", "DepLogic.C15.and_neutral",
+            "DepLogic.C15.or_neutral"]}
 THEOREMS: list[str] = []
 
 
